@@ -10,6 +10,8 @@ import common   # noqa
 def main():
     if len(sys.argv) >= 2 and sys.argv[1] == 'replay':
         sys.exit(common.replay(sys.argv[2]))
+    if len(sys.argv) >= 2 and sys.argv[1] == '--setup':
+        sys.exit(common.setup())
     ap = argparse.ArgumentParser()
     ap.add_argument('property')
     ap.add_argument('--tier', default=os.environ.get('VERIF_TIER', 'quick'), choices=['quick', 'thorough'])
